@@ -365,16 +365,25 @@ def run_property(prop, tier, seed):
               '_BaseAnalysis.process', '_BaseAnalysis.compute_results', 'BaseAttack.__init__', 'BaseAttack._set_convergence', 'BaseAttack._compute_batch_size', 'BaseAttack._final_compute', 'BaseAttack._batch_loop_compute',
               'BaseAttack._compute_convergence_traces', 'BaseAttack.compute_results'):
         rep.function(AMOD + '::' + k, u.ld.fn_hash.get(AMOD + '::' + k))
+    units = []
     if prop == 'C02':
-        slices_contract(u, rep, timeout)
+        units.append(('slices',))
         for fr, lab in ((slice(2, 8), 'slice(2,8)'), ([5, 1, 9, 1], 'list [5,1,9,1]'), (Ellipsis, 'Ellipsis'), ([2, 4, 3, 5], 'list [2,4,3,5]')):
-            for npp in (0, 1, 2): wrapper_contract(u, rep, fr, lab, npp, timeout)
-        batch_size_contract(u, rep, timeout)
+            for npp in (0, 1, 2): units.append(('wrapper', fr, lab, npp))
+        units.append(('bsize',))
         for kn in ('CPAAttack', 'CPAReverse'):
-            for gen in (False, True): run_loop(u, rep, kn, False, 1, timeout, generic_start=gen)
+            for gen in (False, True): units.append(('run', kn, False, gen))
     else:
-        conv_batch_size(u, rep, timeout)
-        for gen in (False, True): run_loop(u, rep, 'CPAAttack', True, 1, timeout, generic_start=gen)
+        units.append(('convbs',))
+        for gen in (False, True): units.append(('run', 'CPAAttack', True, gen))
+    def work(sub, kind, *args):
+        if kind == 'slices': slices_contract(u, sub, timeout)
+        elif kind == 'wrapper': wrapper_contract(u, sub, args[0], args[1], args[2], timeout)
+        elif kind == 'bsize': batch_size_contract(u, sub, timeout)
+        elif kind == 'convbs': conv_batch_size(u, sub, timeout)
+        elif kind == 'run': run_loop(u, sub, args[0], args[1], 1, timeout, generic_start=args[2])
+    from pyvc import parallel as P
+    P.run_units(rep, work, sorted(units, key=lambda x: x[0] != 'run'))
     n = 1 if tier == 'quick' else 4
     rc, o, so, se = R.run_native('props.c02_native', ['bounded', prop, str(seed), tier], timeout=2400)
     if o is None: rep.errors.append('native stand-in failed: %s %s' % (so[-400:], se[-900:]))
